@@ -17,6 +17,15 @@ def gen_case(rng, big):
         n = rng.choice([4200, 5200, 6100, 8300])
         L = rng.randint(8, 22)
         shape = "random"
+        if rng.random() < 0.5:
+            # one big family plus a small unrelated one: the top split separates them, so one child of the root has > 4096 members
+            nbig = rng.choice([4200, 4400, 5000])
+            a1 = gen.family(rng, nbig, L, alpha, "random", 0.2, 0.05, 2)
+            a2 = gen.family(rng, rng.choice([300, 600]), L + 10, alpha[::-1], "random", 0.2, 0.05, 2)
+            seqs = a1 + a2
+            if kind == "protein":
+                seqs = [s + "".join(rng.choice(gen.AA_ONLY) for _ in range(len(s) // 3 + 1)) for s in seqs]
+            return kind, "two_families", [("s%d" % i, s) for i, s in enumerate(seqs)]
     elif big:
         n = rng.choice([100, 101, 150, 260, 400, 600])
         L = rng.randint(15, 60)
@@ -24,6 +33,15 @@ def gen_case(rng, big):
         n = rng.randint(3, 99)
         L = rng.randint(10, 300)
     seqs = gen.family(rng, n, L, alpha, shape, rng.choice([0.1, 0.25]), rng.choice([0.03, 0.08]), rng.choice([1, 4, 12]))
+    if not big and rng.random() < 0.25:
+        # indels right next to the sequence ends (a gap run directly before the last / after the first residue)
+        out = []
+        for s_ in seqs:
+            if len(s_) > 6 and rng.random() < 0.5:
+                k = rng.randint(1, 3)
+                s_ = s_[:-1 - k] + s_[-1:] if rng.random() < 0.5 else s_[:1] + s_[1 + k:]
+            out.append(s_)
+        seqs = out
     if kind == "protein":
         seqs = [s + "".join(rng.choice(gen.AA_ONLY) for _ in range(len(s) // 3 + 1)) for s in seqs]
     return kind, shape, [("s%d" % i, s) for i, s in enumerate(seqs)]
